@@ -44,6 +44,18 @@ Section Agree.
     cbn [map existsb]. rewrite IH, contributions_record. unfold day_totals. rewrite has_row_totals_of. reflexivity.
   Qed.
 
+  (** law-free: the rows of [reg -s x] ARE the rows of [x] in the register's daily totals, day by day *)
+  Theorem single_rows_are_register_rows : forall (d : db) (recs : list record) x,
+    map (fun row => (sr_pos NM row, sr_neg NM row)) (single_rows_of NM d x recs)
+    = flat_map (fun rows => match row_of NM x rows with Some pn => [pn] | None => [] end)
+               (register_day_totals_of NM d recs).
+  Proof.
+    intros d recs x. unfold single_rows_of, register_day_totals_of.
+    induction recs as [|r rest IH]; [reflexivity|].
+    cbn [flat_map map]. rewrite map_app, IH. f_equal.
+    destruct (row_of NM x (day_totals NM d (rec_entries NM r))) as [[p n]|]; reflexivity.
+  Qed.
+
   Section Laws.
     Hypothesis AM : AddMonoid NM.
 
